@@ -9,6 +9,7 @@ def dispatch (op : String) (args : List Sx) : String :=
   | "rt" => opRt args
   | "probe" => opProbe args
   | "check" => opCheck args
+  | "tcheck" => opTcheck args
   | "ping" => "pong"
   | _ => "bad-op"
 
